@@ -4,6 +4,7 @@ package c04
 import (
 	"fmt"
 	"os"
+	"syscall"
 	"reflect"
 	"sync"
 	"testing"
@@ -354,9 +355,18 @@ func checkListen(c replyCase) *rp.Fail {
 func decideListen(script [][]byte) *rp.Fail {
 	u, d := hook.Mem(hook.ClientCfg{HasListen: true, ListenIP: [4]byte{127, 0, 0, 1}, ListenPort: 60001})
 	r := &rec{}
-	q := make(chan os.Signal)
+	q := make(chan os.Signal, 2)
 	done := make(chan error, 1)
-	go func() { done <- u.Listen(r, q) }()
+	var listenPanic any
+	go func() {
+		defer func() {
+			if p := recover(); p != nil {
+				listenPanic = p
+				done <- nil
+			}
+		}()
+		done <- u.Listen(r, q)
+	}()
 	for i := 0; i < 20000; i++ {
 		if pn := try(func() { d.Push(nil) }); pn == nil {
 			break
@@ -370,8 +380,32 @@ func decideListen(script [][]byte) *rp.Fail {
 			break
 		}
 	}
-	close(q)
-	<-done
+	// the stop is signalled in every way the channel allows: closed, one signal, two signals in a row
+	total := 0
+	for _, b := range script {
+		total += len(b)
+	}
+	how := [][]os.Signal{nil, {syscall.SIGINT}, {syscall.SIGHUP, syscall.SIGTERM}, {syscall.SIGTERM, syscall.SIGINT}, {syscall.SIGHUP}, {syscall.SIGUSR1, syscall.SIGHUP}}[total%6]
+	if how == nil {
+		close(q)
+	}
+	for _, sig := range how {
+		q <- sig
+	}
+	select {
+	case <-done:
+	case <-time.After(5 * time.Second):
+		if how != nil {
+			close(q)
+		}
+		if fail == nil {
+			fail = rp.Failf("uhppote.Listen/hang", "Listen has not returned 5 s after the signal(s) %v", how)
+		}
+		<-done
+	}
+	if listenPanic != nil && fail == nil {
+		fail = rp.Failf("uhppote.Listen/panic", "Listen panicked when it was signalled with %v: %v", how, listenPanic)
+	}
 	return fail
 }
 
